@@ -300,7 +300,32 @@ def emit_udefs():
     s = PRELUDE + "use vcore::model::*;\n\n" + DR_SRC
     for d in D.curated():
         s += d.item() + "\n" + d.dom_impl() + "\n" + d.eps_impl() + "\n"
+    s += twins_src()
     write_if_changed(os.path.join(H, "udefs/src/lib.rs"), s)
+
+
+def twins_src():
+    """Pairs of DIFFERENT types with the SAME `core::any::type_name` (same-named items in sibling
+    blocks of one function). The runner gives both members of a pair to the same worker
+    process, one after the other: anything the library remembers per type name, per type hash
+    or per generic definition across calls shows up on the second member."""
+    pairs = [
+        ("deep", D.S("Tw", [("a", "u32"), ("b", "Vec<u16>")]), D.S("Tw", [("a", "u64"), ("b", "Vec<u16>")])),
+        ("zero", D.S("Tw", [("a", "u16"), ("b", "u8")], D.ZC), D.S("Tw", [("a", "u64"), ("b", "u8")], D.ZC)),
+        ("repr", D.S("Tw", [("a", "u32")], D.ZC), D.S("Tw", [("a", "u32")], ("repr(C)", "repr(align(16))", "zero_copy"))),
+        ("enum", D.E("Tw", [D.Variant("A", "unit", []), D.Variant("B", "tuple", [("0", "u32")])]), D.E("Tw", [D.Variant("A", "tuple", [("0", "u8")]), D.Variant("B", "unit", [])])),
+        ("kind", D.S("Tw", [("a", "u32"), ("b", "u32")], D.ZC), D.S("Tw", [("a", "u32"), ("b", "u32")])),
+    ]
+    out = "\n/// See `twins_src` in gen/universe.py.\npub fn twins() -> Vec<(vcore::Entry, vcore::Entry)> {\n    let mut v = Vec::new();\n"
+    for tag, a, b in pairs:
+        ents = []
+        for side, d in (("a", a), ("b", b)):
+            body = d.item() + "\n" + d.dom_impl() + "\n" + d.eps_impl()
+            body = body.replace("\n", "\n        ")
+            out += f"    let e_{side} = {{\n        {body}\n        vcore::entry::<Tw>(\"twin.{tag}.{side}::Tw\")\n    }};\n"
+        out += "    v.push((e_a, e_b));\n"
+    out += "    v\n}\n"
+    return out
 
 
 def postfix(x):
